@@ -26,7 +26,10 @@ RULE = (
     "element tree (text/tail/attrib/child identity) and the model before == after every call; (b) history independence: "
     "r0=op(x); run history H (0-6 items, half of them of the probe's own class); r1=op(x); run reversed H; r2=op(x): all "
     "equal by canonical dump; (c) threads: N in 2..16 threads run their own workloads concurrently (switch interval 10us) and "
-    "must reproduce the sequential baseline.  non-trivial = history mixing >=2 kinds incl. one of the probe's class, or a "
+    "must reproduce the sequential baseline - also with the threads as first users of a class in a fresh interpreter, and with 12-16 "
+    "threads all converting complete 8-level statements; (d) every C04 obligation three times in a row, and every violation of a "
+    "hand-written rule after a long history against a fresh interpreter; history items include malformed bodies and files not in "
+    "their declared character set.  non-trivial = history mixing >=2 kinds incl. one of the probe's class, or a "
     "thread case with N >= 4; distinct by case hash"
 )
 ASSUMPTIONS = [
